@@ -432,6 +432,7 @@ pub assume_specification[ <FineDuration as core::default::Default>::default ]() 
 #   MAXT  max_time also bounds the tuning rounds                                              C19
 #   TUNE  sample-size doubling, threshold, first recorded round                               C19
 #   CNT   per-input counter data is held for exactly the recorded samples                      C19
+#   REC   the number of stored timings is the number of recorded samples of the history       C03 C04 C19
 #   ZERO  nothing runs when n = 0 or s = 0 (asserted right after the early return)              C03
 #   PUB   the sample size published for reporting is the recorded samples' size (PUBL: carried through the loop)  C03 C19
 #   NOTUNE / ISTUNE  precondition selecting explicit-size-or-test runs / tuned runs
@@ -576,7 +577,7 @@ pub closed spec fn link(h: Hist, cx: BenchContext, cx0: BenchContext, mode: Benc
     let tune0 = mode0 is Tune;
     &&& elapsed as int == h.el[h.rounds] && rem == h.rem[h.rounds]
     &&& calls == t * sum(h.size)
-    &&& cx.samples.time_samples@.len() == recorded(h, t, tune0)
+    &&& cx.samples.time_samples@.len() == recorded(h, t, tune0) //#REC
     &&& (h.rounds > 0 ==> cx.samples.sample_size as int == h.size[h.rounds - 1]) //#PUBL
     &&& (!tune0 ==> mode == mode0 && forall|r: int| 0 <= r < h.rounds ==> #[trigger] h.size[r] == mode_size(mode0) as int)
     &&& (tune0 && h.first == -1 ==> mode == BenchMode::Tune { sample_size: pow2(h.rounds) as u32 } && pow2(h.rounds) <= 0xffff_ffff) //#TUNE
@@ -703,14 +704,14 @@ proof {
     assert(tune0 && h.first == -1 ==> sz == pow2(h.rounds) && (switched <==> slow / prec > 100)); //#TUNE
     assert(tune0 && h.first >= 0 ==> sz == pow2(h.first)); //#TUNE
     assert(tune0 && h.first == -1 && !switched ==> rem_samples is None); //#TUNE
-    assert(rec_before == (if tune0 && h.first == -1 { 0 } else { recorded(h, t, tune0) }));
+    assert(rec_before == (if tune0 && h.first == -1 { 0 } else { recorded(h, t, tune0) })); //#REC
     lemma_round(h, h2, t, n, skip, min, max, prec, tune0, sz, slow, end_d, switched, rem_b, rem_samples, elapsed_picos as int,
                 mode0, mode_after, rec_before, calls);
     lemma_pow2_basics();
     // the link for the new state, conjunct by conjunct
     assert(elapsed_picos as int == h2.el[h2.rounds] && rem_samples == h2.rem[h2.rounds]);
     assert(calls == t * sum(h2.size));
-    assert(self.samples.time_samples@.len() == recorded(h2, t, tune0));
+    assert(self.samples.time_samples@.len() == recorded(h2, t, tune0)); //#REC
     assert(self.samples.sample_size as int == h2.size[h2.rounds - 1]); //#PUBL
     assert(!tune0 ==> current_mode == mode0);
     assert(!tune0 ==> forall|r: int| 0 <= r < h2.rounds ==> #[trigger] h2.size[r] == mode_size(mode0) as int) by {
@@ -734,7 +735,7 @@ FINAL = r"""
 proof {
     if !is_test {
         // exact accounting, whatever the clock did
-        assert(self.samples.time_samples@.len() == recorded(h, t, tune0));
+        assert(self.samples.time_samples@.len() == recorded(h, t, tune0)); //#REC
         assert(calls == t * sum(h.size));
         // the number of rounds is the least r at which the rule says stop
         assert(forall|r: int| 0 <= r < h.rounds ==> stay(#[trigger] h.el[r], h.rem[r], min, max)); //#CONT,CONT3
@@ -808,11 +809,11 @@ pub proof fn lemma_round(h: Hist, h2: Hist, t: int, n: int, skip: bool, min: int
         tune0 && h.first == -1 ==> sz == pow2(h.rounds) && (switched <==> slow / prec > 100), //#TUNE
         tune0 && h.first >= 0 ==> sz == pow2(h.first), //#TUNE
         tune0 && h.first == -1 && !switched ==> rem_new is None, //#TUNE
-        rec_before == (if tune0 && h.first == -1 { 0 } else { recorded(h, t, tune0) }),
+        rec_before == (if tune0 && h.first == -1 { 0 } else { recorded(h, t, tune0) }), //#REC
     ensures
         hist_inv(h2, t, n, skip, min, max, prec, tune0),
         t * sum(h2.size) == t * sum(h.size) + t * sz,
-        recorded(h2, t, tune0) == rec_before + t,
+        recorded(h2, t, tune0) == rec_before + t, //#REC
 {
     lemma_sum_push(h.size, sz);
     assert(t * (sum(h.size) + sz) == t * sum(h.size) + t * sz) by (nonlinear_arith);
@@ -1036,17 +1037,17 @@ VERIFY = {
     "C03": {"has_samples", "initial_mode", "mode_fns"},
     "C04": set(),
     "C19": {"clear", "initial_mode", "mode_fns"},
-    "C05": set(),
+    "C05": {"clear"},
 }
 
 TAGS = {
-    "C03": {"CONT3", "REM", "NOTUNE", "PUB", "ZERO"},
-    "C04": {"CONT", "REM", "EL", "NOTUNE"},
-    "C19": {"CONT19", "MAXT", "TUNE", "ISTUNE", "PUB", "CNT"},
-    # C05 divides by the published sample size: it must be the size the recorded samples were taken with. Only runs with an
-    # explicit sample size: for tuned runs the accounting of recorded samples needs the TUNE conjuncts, which are C19's statement
-    # (a change that breaks only the tuning rule must not alarm C05); tuned runs are covered by C19's own file.
-    "C05": {"NOTUNE", "PUB", "CONT0"},
+    "C03": {"REC", "CONT3", "REM", "NOTUNE", "PUB", "ZERO"},
+    "C04": {"REC", "CONT", "REM", "EL", "NOTUNE"},
+    "C19": {"REC", "CONT19", "MAXT", "TUNE", "ISTUNE", "PUB", "CNT"},
+    # C05 divides by the published sample size: it must be the size the last round's (= the recorded) samples were taken with,
+    # for tuned and explicit-size runs alike; nothing else of the loop (in particular not the accounting of recorded samples,
+    # tag REC, nor the tuning rule) is asserted for C05, so that a change breaking only those does not alarm it.
+    "C05": {"PUB", "CONT0"},
 }
 
 
